@@ -13,8 +13,8 @@ fn main() {
     let p = |id, rule| Property {
         id,
         level: Level::Exploration,
-        quick_runs: 40_000,
-        thorough_runs: 1_500_000,
+        quick_runs: 150_000,
+        thorough_runs: 3_000_000,
         quick_wall_s: 60.0,
         thorough_wall_s: 600.0,
         event_cap: 20_000,
